@@ -234,6 +234,13 @@ def linear_cases(tier):
                 for tw in (None, (3.0, 0.25, 2.0, 0.5, 1.5)[:nt]):
                     for br in (False, True, 2):
                         yield {"fam": fam, "x0": x0, "kw": kw, "tw": tw, "tol": 1e-8, "limits": [(-50.0, 50.0)] * nk, "broyden": br, "nsm": 20}
+                    # the start point sits exactly on a limit of every knob (upper / lower), the solution is inside
+                    ks = F["ksol"]
+                    if nk <= nt:
+                        up = [max(k + 1.0, 2.0) for k in ks]
+                        lo = [min(k - 1.0, -2.0) for k in ks]
+                        yield {"fam": fam, "x0": up, "kw": kw, "tw": tw, "tol": 1e-8, "limits": [(-50.0, u) for u in up], "broyden": False, "nsm": 20}
+                        yield {"fam": fam, "x0": lo, "kw": kw, "tw": tw, "tol": 1e-8, "limits": [(l, 50.0) for l in lo], "broyden": False, "nsm": 20}
 
 
 def check_linear(spec, out):
@@ -318,6 +325,54 @@ def check_broyden_seq(spec, out):
                               "program": [f"problem: {O.spec_str(spec)}", f"opt.step(1, broyden={spec['first_broyden']})", "knobs moved by the user",
                                           f"opt.disable(target=[{j}], vary=[{j}])", "opt.step(1, broyden=True)"],
                               "case": {"kind": "broyden-seq", "spec": repr(spec)}})
+
+
+def reconfig_cases():
+    for fam in ("lin2", "lin2skew", "lin3", "ident3", "lin_tall"):
+        F = O.FAMILIES[fam]
+        nk = F["nk"]
+        for x0 in ([0.1] * nk, [2.0 - 0.5 * i for i in range(nk)]):
+            for what in ("limits-widened", "limits-moved", "weights", "weights+limits"):
+                for kw in (None, (2.0, 0.5, 4.0)[:nk]):
+                    yield {"fam": fam, "x0": x0, "kw": kw, "tw": None, "tol": 1e-8, "nsm": 20, "reconf": what,
+                           "limits": [(x - 0.05, x + 0.05) for x in x0] if what.startswith("limits") else [(-50.0, 50.0)] * nk}
+
+
+def check_reconfig(spec, out):
+    """a step under the first configuration; then the user edits limits and/or weights of the knobs (and may move them); the next
+    Jacobian step of the SAME optimizer must land on the solution of the linear problem under the new configuration"""
+    import numpy as np
+    out["evaluations"] += 1
+    p = O.Problem(spec)
+    what = None
+    try:
+        p.opt.step(1)
+        new_w = [0.01, 3.0, 0.5][:p.nk]
+        for i, v in enumerate(p.opt.vary):
+            if "limits" in spec["reconf"]:
+                v.limits = np.array((-1000.0, 1000.0) if spec["reconf"] != "limits-moved" else (-60.0 - i, 70.0 + i))
+            if "weights" in spec["reconf"]:
+                v.weight = new_w[i]
+        if "weights" in spec["reconf"]:
+            p.kw = list(new_w)
+        # ... and moves the knobs a little: the step under test is the first Jacobian step from a new start point (the solver
+        # deliberately keeps a knob that hit a limit out of the NEXT step, so without a new start the claim would not apply)
+        for i in range(p.nk):
+            p.knobs[p.kn[i]] = dict.__getitem__(p.knobs, p.kn[i]) + 0.01
+        p.opt.step(1)
+        k = p.knob_values()
+        vals = p.f(k)
+        err = max(abs(v - t) for v, t in zip(vals, p.tvals))
+        if err > 1e-6:
+            what = (f"after the knobs' {spec['reconf']} were edited, a Jacobian step of the same optimizer leaves the targets of a linear problem "
+                    f"off by {err:.3e} (knobs {k!r})")
+    except Exception as e:  # noqa
+        what = f"sequence raised {type(e).__name__}: {e}"
+    out["distinct"].add(("reconfig", spec["fam"], tuple(spec["x0"]), spec["reconf"], spec["kw"] is None))
+    if what and len(out["issues"]) < 20:
+        out["issues"].append({"kind": "violation", "property": "C16", "finding": None, "what": what, "config": {},
+                              "program": [f"problem: {O.spec_str(spec)}", "opt.step(1)", f"vary[i].{spec['reconf']} edited by the user", "opt.step(1)"],
+                              "case": {"kind": "reconfig", "spec": repr(spec)}})
 
 
 def _matrix(fam):
@@ -406,7 +461,11 @@ def view_cases():
                 for lims in ([(-1.0, 2.0), (-1.5, 1.0), (-2.0, 4.0)][:nk], [(-3.0, 3.0)] * nk):
                     for rs in (None, (0, 1), (-1, 1), (2, 5)):
                         for scalar in (False, True):
-                            for pt in ([0.3, -0.4, 0.7][:nk], [1.1, 0.6, -1.2][:nk]):
+                            pts = [[0.3, -0.4, 0.7][:nk], [1.1, 0.6, -1.2][:nk],
+                                   [l[1] for l in lims],                                   # every knob exactly on its upper limit
+                                   [lims[0][0]] + [0.25] * (nk - 1),                       # first knob on its lower limit
+                                   [0.25] * (nk - 1) + [lims[-1][1]]]                      # last knob on its upper limit
+                            for pt in pts:
                                 yield {"fam": fam, "kw": kw, "tw": tw, "limits": lims, "rescale": rs, "scalar": scalar, "pt": pt}
 
 
@@ -486,6 +545,8 @@ def job(chunk):
             check_reuse_case(payload, out)
         elif kind == "broyden-seq":
             check_broyden_seq(payload, out)
+        elif kind == "reconfig":
+            check_reconfig(payload, out)
     out["distinct"] = {repr(x) for x in out["distinct"]}
     return out
 
@@ -500,6 +561,7 @@ def all_items(tier):
     items += [("view", c) for c in view_cases()]
     items += [("reuse", c) for c in reuse_cases()]
     items += [("broyden-seq", c) for c in broyden_seq_cases()]
+    items += [("reconfig", c) for c in reconfig_cases()]
     return items
 
 
@@ -520,7 +582,7 @@ def run_job(job_):
     chunks = [[h] for h in heavy] + E.chunked(light, 60)
     r = E.pmap(job, chunks, job_.get("nproc", 1))
     r["distinct_n"] = len(r.pop("distinct", ()))
-    r["items"] = {k: sum(1 for it in items if it[0] == k) for k in ("lstsq", "smallint", "linear", "scalings", "view", "reuse", "broyden-seq")}
+    r["items"] = {k: sum(1 for it in items if it[0] == k) for k in ("lstsq", "smallint", "linear", "scalings", "view", "reuse", "broyden-seq", "reconfig")}
     return r
 
 
@@ -553,6 +615,8 @@ def replay(issue):
         check_scalings(out)
     elif case["kind"] == "broyden-seq":
         check_broyden_seq(ast.literal_eval(case["spec"]), out)
+    elif case["kind"] == "reconfig":
+        check_reconfig(ast.literal_eval(case["spec"]), out)
     elif case["kind"] == "reuse":
         for c in reuse_cases():
             if [c[0], c[1], c[4]] == case["id"]:
